@@ -22,8 +22,13 @@ TakeDigits(s, i) == IF i <= Len(s) /\ IsDigit(s[i]) THEN TakeDigits(s, i + 1) EL
 RECURSIVE DigitsVal(_, _, _, _)
 DigitsVal(s, i, j, acc) == IF i >= j THEN acc ELSE DigitsVal(s, i + 1, j, RAdd(RMul(acc, "10"), s[i]))
 ToStr(d) == CASE d = 0 -> "0" [] d = 1 -> "1" [] d = 2 -> "2" [] d = 3 -> "3" [] d = 4 -> "4" [] d = 5 -> "5" [] d = 6 -> "6" [] d = 7 -> "7" [] d = 8 -> "8" [] OTHER -> "9"
+\* exponents: accumulated as the scanner does - once the value exceeds 9999 a further digit makes the string "not a number"
+\* (fix 1fa1197: the exponent is bounded by 99999); ExpTooBig saturates so that TLC's 32-bit integers are safe
+ExpLimit == 9999
 RECURSIVE SmallInt(_, _, _, _)
-SmallInt(s, i, j, acc) == IF i >= j THEN acc ELSE SmallInt(s, i + 1, j, 10 * acc + (CHOOSE d \in 0..9 : ToStr(d) = s[i]))
+SmallInt(s, i, j, acc) == IF i >= j THEN acc ELSE IF acc > ExpLimit THEN acc ELSE SmallInt(s, i + 1, j, 10 * acc + (CHOOSE d \in 0..9 : ToStr(d) = s[i]))
+RECURSIVE ExpTooBig(_, _, _, _)
+ExpTooBig(s, i, j, acc) == IF i >= j THEN FALSE ELSE IF acc > ExpLimit THEN TRUE ELSE ExpTooBig(s, i + 1, j, 10 * acc + (CHOOSE d \in 0..9 : ToStr(d) = s[i]))
 
 \* one part (no '/'): [ok, end (position after the part), val]
 ParsePart(s, i) ==
@@ -46,7 +51,7 @@ ParsePart(s, i) ==
       ex  == IF okExp THEN SmallInt(s, e2, e3, 0) ELSE 0
       endp == IF okExp THEN e3 ELSE k
       v0  == IF okExp THEN RMul(mant, RPow10(IF eneg THEN -ex ELSE ex)) ELSE mant
-  IN [ok |-> okMant /\ (hasE => okExp), end |-> endp, val |-> IF okMant THEN (IF neg THEN RNeg(v0) ELSE v0) ELSE "0"]
+  IN [ok |-> okMant /\ (hasE => okExp) /\ ~(okExp /\ ExpTooBig(s, e2, e3, 0)), end |-> endp, val |-> IF okMant THEN (IF neg THEN RNeg(v0) ELSE v0) ELSE "0"]
 
 \* whole string is a valid literal
 Parse(s) ==
@@ -63,7 +68,7 @@ Value(s) == Parse(s).val
 \* ------------------------------------------------------------------ the scanner (eg_lpnum.c: mpq_EGlpNumReadStrXc)
 ScanInit == [a_dot |-> TRUE, a_exp |-> FALSE, a_exp_sgn |-> FALSE, a_sgn |-> TRUE, a_div |-> TRUE, cn |-> 0, n_dig |-> 0,
              num |-> <<"0", "0">>, den |-> <<"1", "1">>,      \* den[cn] = num[cn+1]/den[cn+1] ; part 1 starts as 1/1
-             l_exp |-> 0, sgn |-> FALSE, exp_sgn |-> FALSE, n |-> 0]
+             l_exp |-> 0, bad_exp |-> FALSE, sgn |-> FALSE, exp_sgn |-> FALSE, n |-> 0]
 ScanInit1 == [ScanInit EXCEPT !.num = <<"0", "1">>]
 Accepts(st, c) == \/ IsDigit(c) \/ (st.a_dot /\ c = ".") \/ (st.a_exp /\ c \in {"e", "E"}) \/ (st.a_sgn /\ c \in {"+", "-"})
                   \/ (st.a_div /\ c = "/") \/ (st.a_exp_sgn /\ c \in {"+", "-"})
@@ -79,7 +84,8 @@ ScanChar(st, c) ==
                    (IF st.a_exp \/ st.n_dig = 0
                     THEN [st EXCEPT !.den[p] = IF ~st.a_dot THEN RMul(@, "10") ELSE @, !.num[p] = RAdd(RMul(@, "10"), c),
                                     !.n_dig = @ + 1, !.a_exp = TRUE, !.a_sgn = FALSE]
-                    ELSE [st EXCEPT !.l_exp = 10 * @ + (CHOOSE d \in 0..9 : ToStr(d) = c), !.a_exp_sgn = FALSE, !.a_sgn = FALSE])
+                    ELSE [st EXCEPT !.l_exp = IF @ > ExpLimit THEN @ ELSE 10 * @ + (CHOOSE d \in 0..9 : ToStr(d) = c), !.bad_exp = @ \/ st.l_exp > ExpLimit,
+                                    !.a_exp_sgn = FALSE, !.a_sgn = FALSE])
              [] c = "." -> [st EXCEPT !.a_sgn = FALSE, !.a_dot = FALSE]
              [] c \in {"+", "-"} ->
                    [st EXCEPT !.sgn = IF c = "-" /\ st.a_sgn THEN TRUE ELSE @,
@@ -98,7 +104,7 @@ Scan(s) ==
       f  == Finish(st, st.cn + 1)
       v1 == RDiv(f.num[1], f.den[1])
       d2 == f.num[2]      \* numerator of the divisor part (den[1] in the C code); the initial 1/1 when there is no '/'
-  IN IF st.n = 0 THEN [used |-> 0, val |-> "none"]
+  IN IF st.n = 0 \/ st.bad_exp THEN [used |-> 0, val |-> "none"]      \* an exponent beyond 99999: not a number (fix 1fa1197)
      ELSE IF d2 = "0" THEN [used |-> 0, val |-> "none"]           \* p/0 or "p/": not a number (fix 12ac85b)
      ELSE [used |-> st.n, val |-> RDiv(v1, RDiv(f.num[2], f.den[2]))]
 =============================================================================
